@@ -228,7 +228,7 @@ func runFreeWire(t *testing.T, rc *RunCtx) {
 				wc := calls[i]
 				ctx := n.Inst.ClientCtx([]string{"client1", "client2"}[i%2], "")
 				<-start
-				m, err, p, a := callGuarded(60*time.Second, func() (proto.Message, error) { return wc.call(ctx, n, wc.req) })
+				m, err, p, a := callGuarded(30*time.Second, func() (proto.Message, error) { return wc.call(ctx, n, wc.req) })
 				out[i] = res{p, a, a && p == "" && m == nil && err == nil}
 			}(i)
 		}
@@ -255,6 +255,8 @@ func runFreeWire(t *testing.T, rc *RunCtx) {
 		var done atomic.Bool
 		var wgC, wgR sync.WaitGroup
 		var panics, unanswered atomic.Value
+		var dynMu sync.Mutex
+		var dynKeys [][]byte
 		var reads, created atomic.Int64
 		keys := [][]byte{}
 		for _, a := range n.Pop.Accts[:8] {
@@ -275,6 +277,10 @@ func runFreeWire(t *testing.T, rc *RunCtx) {
 						r, err := n.Inst.AcctH.Generate(ctx, &pb.GenerateRequest{Account: fmt.Sprintf("Wallet 1/churn %d %d %d", rc.Seed%1000, cIdx, i), Passphrase: []byte("pass"), Participants: 1, SigningThreshold: 1})
 						if err == nil && r.GetState() == pb.ResponseState_SUCCEEDED {
 							created.Add(1)
+							// the new account's key joins the keys the other clients sign with
+							dynMu.Lock()
+							dynKeys = append(dynKeys, r.GetPublicKey())
+							dynMu.Unlock()
 						}
 						return r, err
 					})
@@ -319,8 +325,17 @@ func runFreeWire(t *testing.T, rc *RunCtx) {
 							return n.Inst.SignerH.Sign(ctx, &pb.SignRequest{Id: &pb.SignRequest_Account{Account: fmt.Sprintf("Wallet 1/No such account %d", u)}, Data: h32("churn", rIdx, u), Domain: MkDomain([4]byte{7, 0, 0, 0}, u)})
 						})
 					} else {
+						key := keys[int(u)%len(keys)]
+						if u%2 == 1 {
+							// every other request addresses an account created a moment ago, by its public key
+							dynMu.Lock()
+							if len(dynKeys) > 0 {
+								key = dynKeys[int(u/2)%len(dynKeys)]
+							}
+							dynMu.Unlock()
+						}
 						_, _, p, answered = callGuarded(30*time.Second, func() (proto.Message, error) {
-							return n.Inst.SignerH.Sign(ctx, &pb.SignRequest{Id: &pb.SignRequest_PublicKey{PublicKey: keys[int(u)%len(keys)]}, Data: h32("churn", rIdx, u), Domain: MkDomain([4]byte{7, 0, 0, 0}, u)})
+							return n.Inst.SignerH.Sign(ctx, &pb.SignRequest{Id: &pb.SignRequest_PublicKey{PublicKey: key}, Data: h32("churn", rIdx, u), Domain: MkDomain([4]byte{7, 0, 0, 0}, u)})
 						})
 					}
 					if !answered && p == "" {
@@ -348,6 +363,11 @@ func runFreeWire(t *testing.T, rc *RunCtx) {
 		if u, _ := unanswered.Load().(string); u != "" && len(rc.Viol) == 0 {
 			rc.Violate("C20", "request-never-answered", fmt.Sprintf("%s got neither a response nor an error within 30 s while accounts were being created (%d created so far)", u, created.Load()), volleys)
 		}
+	}
+	if len(rc.Viol) > 0 {
+		// Something already went unanswered or died: the run ends here (waiting out more guards only costs time).
+		rc.Stats.Seen("cases", fmt.Sprintf("freewire/%s/%d/%s", focus, volleys, hexShort(h32(desc))))
+		return
 	}
 	// Canary.
 	canaryAcct := n.Pop.ByPath("Wallet 2/Canary")
